@@ -3303,15 +3303,13 @@ func (c *BytecodeCompiler) localVariableAssignment(name string, operator *token.
 	case token.EQUAL_OP:
 		return c.setLocal(name, right, location, valueIsIgnored)
 	case token.COLON_EQUAL:
-		local := c.defineLocal(name, nil)
-		c.compileNodeWithResult(right)
+		local := c.defineLocalWithInitialiser(name, right, nil)
 		if local == nil {
 			return valueIgnoredToResult(valueIsIgnored)
 		}
 		return c.emitSetLocal(location.StartPos.Line, local.index, valueIsIgnored)
 	case token.COLON_COLON_EQUAL:
-		local := c.defineLocal(name, location)
-		c.compileNodeWithResult(right)
+		local := c.defineLocalWithInitialiser(name, right, location)
 		if local == nil {
 			return valueIgnoredToResult(valueIsIgnored)
 		}
@@ -3799,12 +3797,14 @@ func (c *BytecodeCompiler) optimiseIfLessEqual(jumpOp bytecode.OpCode, condition
 func (c *BytecodeCompiler) compileValueDeclarationNode(node *ast.ValueDeclarationNode, valueIsIgnored bool) expressionResult {
 	initialised := node.Initialiser != nil
 
-	local := c.defineLocal(identifierToName(node.Name), node.Location())
+	var local *bytecodeLocal
+	if initialised {
+		local = c.defineLocalWithInitialiser(identifierToName(node.Name), node.Initialiser, node.Location())
+	} else {
+		local = c.defineLocal(identifierToName(node.Name), node.Location())
+	}
 	if local == nil {
 		return valueIgnoredToResult(valueIsIgnored)
-	}
-	if initialised {
-		c.compileNodeWithResult(node.Initialiser)
 	}
 
 	if initialised {
@@ -5315,12 +5315,16 @@ func (c *BytecodeCompiler) compileVariablePatternDeclarationWithoutValue(pattern
 func (c *BytecodeCompiler) compileVariableDeclarationNode(node *ast.VariableDeclarationNode, valueIsIgnored bool) expressionResult {
 	initialised := node.Initialiser != nil
 
-	local := c.defineLocal(identifierToName(node.Name), node.Location())
+	var local *bytecodeLocal
+	if initialised {
+		local = c.defineLocalWithInitialiser(identifierToName(node.Name), node.Initialiser, node.Location())
+	} else {
+		local = c.defineLocal(identifierToName(node.Name), node.Location())
+	}
 	if local == nil {
 		return valueIgnoredToResult(valueIsIgnored)
 	}
 	if initialised {
-		c.compileNodeWithResult(node.Initialiser)
 		return c.emitSetLocal(node.Location().StartPos.Line, local.index, valueIsIgnored)
 	}
 
@@ -9516,6 +9520,27 @@ func (c *BytecodeCompiler) addWarning(message string, loc *position.Location) {
 		message,
 		loc,
 	)
+}
+
+// Compile the initialiser of a local declaration and register the local.
+// The local is registered after its initialiser has been compiled, so the initialiser
+// refers to the variable with the same name from an outer scope, like in the type checker.
+// Closure literals are the exception, they may call themselves recursively.
+func (c *BytecodeCompiler) defineLocalWithInitialiser(name string, init ast.ExpressionNode, location *position.Location) *bytecodeLocal {
+	if closure, ok := init.(*ast.ClosureLiteralNode); ok && !closure.Lambda {
+		local := c.defineLocal(name, location)
+		c.compileNodeWithResult(init)
+		return local
+	}
+	if local := c.getLocal(name); local != nil {
+		// assignment to a local of the current scope (or a redeclaration error)
+		local = c.defineLocal(name, location)
+		c.compileNodeWithResult(init)
+		return local
+	}
+
+	c.compileNodeWithResult(init)
+	return c.defineLocal(name, location)
 }
 
 // Register a local variable, reusing the variable with the same name that has already been defined in this scope.
